@@ -17,7 +17,7 @@ EXPLANATION = (
 ASSUMPTIONS = ["systems fetch only what they declare (C06 decides this for library-provided system data)",
                "rayon for_each/install/join semantics", "atomic_refcell as run-time backstop"]
 TRUSTED = ["rustc nightly MIR construction", "shred-facts driver", "shredlint analyses (origins, decision tables, coverage)"]
-TECHNIQUE = 'static: value-origin analysis of check_intersection operands (roles from Accessor::reads/writes in insert), decision tables of the conflict predicate / accept closures, slot and lock-step obligations on MIR, FANOUT coverage of the run family, rayon call inventory'
+TECHNIQUE = 'static: structured evaluation (interprocedural path tabulation with loop objects and std-combinator models) of insert / insertion_target / find_conflict: roles of check_intersection operands derived from Accessor::reads/writes in insert, per-group decision table, accept table of the candidate scan, slot and lock-step obligations on MIR, FANOUT coverage of the run family, rayon call inventory'
 RULE_TEXT = "one obligation per decision-table row, operand role pair, table write, lock-step mutation site, run-family fan-out and rayon call site"
 
 EXEC_IDS = ("Stage::execute", "Stage::execute_seq", "SendDispatcher::dispatch", "SendDispatcher::dispatch_par", "SendDispatcher::dispatch_seq",
